@@ -601,8 +601,21 @@ def check_destroy(rep, repo, pre=""):
     w = graph_walk(repo, "Subgraph", "reset")
     calls = [e for e in w.events if e.kind == "call" and e.name in ("destroy_arcs", "<inline>")
              and ("destroy_arcs" in (e.name, ) or (e.target and str(e.target[1]).endswith(".destroy_arcs")))]
-    rep.fn(pre + "DESTROY", w.entry, "reset also destroys the arcs", len(calls) >= 1 and not any(facts(e.guards) for e in calls),
-           "reset must call destroy_arcs unconditionally")
+    okr = len(calls) >= 1 and not any(facts(e.guards) for e in calls)
+    if not okr:
+        # ... or does the same itself: both arc fields cleared for every node, unconditionally, in this walk
+        done = 0
+        for fld, want in specs["destroy_arcs"].items():
+            st = [e for e in w.events if e.kind == "store" and e.target[0] == "attr" and e.target[2] == fld]
+            if len(st) == 1 and len(st[0].loops) == 1 and not facts(st[0].guards):
+                nl = node_loop(w.loops[st[0].loops[0]])
+                val = st[0].value
+                okv = (val == want) if want is not None else ((val[0] == "alloc" and val[1] == "list" and not val[2]) or val == ("list", ()))
+                if nl is not None and nl[0] == ("self",) and st[0].target[1] == nl[2] and okv:
+                    done += 1
+        okr = done == len(specs["destroy_arcs"])
+    rep.fn(pre + "DESTROY", w.entry, "reset also destroys the arcs", okr,
+           "reset must call destroy_arcs unconditionally (or clear both arc fields of every node itself)")
 
 
 def check(chk, repo):
